@@ -2,8 +2,8 @@
 // within [0, MaxIdx].
 //
 // A case is a handful of keys (one of them spelled like, or almost like, a Go
-// integer literal), an option set (PathSep, MaxIdx, EnableNumKeys) and a use
-// site. The keys are fed to the library through that site; the stored tree,
+// integer literal), an option set (PathSep, MaxIdx, EnableNumKeys, EscapePath)
+// and a use site (refs_test.go adds the site "name inside a reference"). The keys are fed to the library through that site; the stored tree,
 // the public structure queries, Unpack and the path-addressed getters must
 // then agree with the classification model of model_test.go.
 package c20
